@@ -83,6 +83,7 @@ PROPS.update({
     },
     "C07": {
         "title": "Deadline expiry at any point still yields a valid diff, promptly; it is plumbed",
+        "counts": True,
         "module": "SimilarVerif.Props.C07",
         "suites": ["deadline", "text"],
         "rule": "deadline: all pairs up to length 4 over 2 (thorough 3) symbols + random pairs x 3 algorithms x every expiry point k = 0..#checks+1 (sampled beyond 40) through algorithms::diff_deadline and capture_diff_deadline under the virtual clock; validators: script validity, finish once, comparisons after expiry <= 2x the hand-derived bound, never-expiring = none; text: TextDiffConfig deadline/timeout reach the algorithm; non-trivial = the clock actually expired",
@@ -128,6 +129,7 @@ PROPS.update({
     },
     "C19": {
         "title": "Myers and Patience do work proportional to (N+M)*(D+1)",
+        "counts": True,
         "module": "SimilarVerif.Props.C19",
         "suites": ["cost"],
         "rule": "cost: 700 (thorough 6000) generated pairs up to 600 (thorough 3000) items per side from 7 families (near-identical, block moves, periodic, heavy repeats, unrelated, unique-rich, small alphabet) x Myers and Patience; comparisons counted by the element type; non-trivial = near-identical (D*8 < N+M)",
